@@ -2,25 +2,29 @@
 (* Exhaustive configurations for CompileExec: every import graph over Files with at most two
    imports per file (self-imports, 2- and 3-cycles, diamonds, chains included), every request
    sequence of distinct files, fault plans with at most one faulty file.                   *)
-EXTENDS CompileExec, Json
-CONSTANT Pars   \* set of parallelism settings to explore
+EXTENDS CompileExec, Json, Randomization
+CONSTANT Pars,        \* set of parallelism settings to explore
+         SampleSize   \* 0 = every graph; otherwise a TLC -seed dependent sample of that many graphs
 
 Pairs == {<<a, b>> : a, b \in Files} \ {<<a, a>> : a \in Files}
 ImportLists == {<<>>} \cup {<<a>> : a \in Files} \cup Pairs
 AllGraphs == [Files -> ImportLists]
-ReqSeqs == {<<a>> : a \in Files} \cup Pairs
-             \cup {s \in [1..3 -> Files] : Cardinality({s[1], s[2], s[3]}) = 3}
+Graphs == IF SampleSize = 0 THEN AllGraphs ELSE RandomSubset(SampleSize, AllGraphs)
+Triples == {s \in [1..3 -> Files] : Cardinality({s[1], s[2], s[3]}) = 3}
+ReqSeqs == {<<a>> : a \in Files} \cup Pairs \cup Triples
 ReqSeqsSmall == {<<a>> : a \in Files} \cup Pairs
 AllOk == [f \in Files |-> "ok"]
 OneFault(kinds) == {[f \in Files |-> IF f = g THEN k ELSE "ok"] : g \in Files, k \in kinds}
 
-ConfigsNoFault == {[imports |-> g, req |-> r, plan |-> AllOk, par |-> n] : g \in AllGraphs, r \in ReqSeqs, n \in Pars}
-ConfigsMissing == {[imports |-> g, req |-> r, plan |-> p, par |-> n] : g \in AllGraphs, r \in ReqSeqsSmall, p \in OneFault({"err"}), n \in Pars}
-ConfigsFaults  == {[imports |-> g, req |-> r, plan |-> p, par |-> n] : g \in AllGraphs, r \in ReqSeqsSmall,
-                                                           p \in {AllOk} \cup OneFault({"err", "panic", "short"}), n \in Pars}
+ConfigsNoFault == {[imports |-> g, req |-> r, plan |-> AllOk, par |-> n] : g \in Graphs, r \in ReqSeqs, n \in Pars}
+ConfigsNoFaultSmall == {[imports |-> g, req |-> r, plan |-> AllOk, par |-> n] : g \in Graphs, r \in ReqSeqsSmall, n \in Pars}
+ConfigsMissing == {[imports |-> g, req |-> r, plan |-> p, par |-> n] :
+                     g \in Graphs, r \in ReqSeqsSmall, p \in {AllOk} \cup OneFault({"err"}), n \in Pars}
+ConfigsFaults  == {[imports |-> g, req |-> r, plan |-> p, par |-> n] :
+                     g \in Graphs, r \in ReqSeqsSmall, p \in {AllOk} \cup OneFault({"err", "panic", "short"}), n \in Pars}
 
-(* Direction A: one case per state in which Compile is about to return *)
-Case == [imports |-> imports, req |-> req, plan |-> plan, par |-> par, mres |-> mres,
-         reports |-> {[sq |-> r[1], dep |-> r[2]] : r \in reports}]
-Export == (mpc = "ret") => PrintT("CASE " \o ToJson(Case))
+(* Direction A: one case per configuration, with the outcomes the statements allow *)
+Case == [imports |-> imports, req |-> req, plan |-> plan, par |-> par,
+         allowed |-> AllowedNoCancel, hasCycle |-> HasCycle, hasFault |-> HasFault]
+Export == (mpc = "start") => PrintT("CASE " \o ToJson(Case))
 =============================================================================
